@@ -72,7 +72,7 @@ pub struct HardCase {
 
 /// Enumerate counter messages with the reference signer until every class has a member (or cap).
 pub fn hard_cases(p: &'static Params, skc: &SkCtx, cap: usize) -> (Vec<HardCase>, Vec<String>) {
-    let classes = ["iterations>=10", "hint_weight=omega", "hint_weight=omega-1", "z_norm=gamma1-beta-1", "r0_norm=gamma2-beta-1", "w_corner", "late_rejection(ct0/weight)", "hint_weight>=omega-3"];
+    let classes = ["iterations>=10", "hint_weight=omega", "hint_weight=omega-1", "z_norm=gamma1-beta-1", "r0_norm=gamma2-beta-1", "w_corner", "late_rejection(ct0/weight)", "hint_weight>=omega-3", "rejected_exactly_at:z_norm==gamma1-beta", "rejected_exactly_at:r0_norm==gamma2-beta", "rejected_exactly_at:hint_weight==omega+1"];
     let mut found: Vec<Option<HardCase>> = vec![None; classes.len()];
     let chunk = 256;
     let mut base = 0usize;
@@ -95,6 +95,9 @@ pub fn hard_cases(p: &'static Params, skc: &SkCtx, cap: usize) -> (Vec<HardCase>
                 info.w_corner,
                 info.rejects.iter().any(|r| matches!(r, refmodel::Reject::Ct0Norm | refmodel::Reject::HintWeight)),
                 info.hint_weight + 3 >= p.omega,
+                info.boundary_rejections.contains(&"z_norm==gamma1-beta"),
+                info.boundary_rejections.contains(&"r0_norm==gamma2-beta"),
+                info.boundary_rejections.contains(&"hint_weight==omega+1"),
             ];
             for (ci, hit) in hits.iter().enumerate() {
                 if *hit && found[ci].is_none() {
@@ -294,6 +297,62 @@ pub fn c03(cx: &Ctx, rep: &mut Report) {
                 }
             }
         }
+        // an attempt rejected with ||c t0|| EXACTLY gamma2 (only reachable for ML-DSA-44, where tau*2^12 > gamma2): the valid
+        // key whose every t0 coefficient is gamma2/32 = 2976 makes c*t0 a multiple of 2976, so the boundary is hit when the
+        // largest partial sum of the challenge's signs is exactly 32
+        if p.id == 44 {
+            // The challenge c of an attempt depends on (K, rnd, mu, A) but not on t0. Take the c of the first attempt that
+            // passes the z / r0 tests under t0 = 0, then craft t0[0] so that coefficient 0 of c*t0 is exactly
+            // 31 * 3072 = 95232 = gamma2 (31 of the tau = 39 non-zero challenge coefficients, each met by +-3072).
+            let mut found = false;
+            for mi in 0..cx.tier.pick(24u32, 200) {
+                let m = format!("ct0-boundary-{mi}").into_bytes();
+                let mp = refmodel::format_message(Mode::Pure, &m, b"").unwrap();
+                let sk0 = refmodel::sk_encode(p, &base.rho, &base.key, &base.tr, &base.s1, &base.s2, &vec![refmodel::POLY0; p.k]);
+                let info0 = refmodel::sign_internal_ctx(&SkCtx::new(p, &sk0), &mp, &[0u8; 32], &refmodel::SignOpts::default()).1;
+                let Some(c) = info0.first_c_after_zr0 else { continue };
+                // (c * t0)[0] = t0_0 c_0 - sum_{j>=1} t0_j c_{256-j}
+                let mut t0p = refmodel::POLY0;
+                let mut used = 0;
+                for j in 0..256usize {
+                    if used == 31 {
+                        break;
+                    }
+                    let cj = if j == 0 { c[0] } else { -c[256 - j] };
+                    if cj != 0 {
+                        t0p[j] = 3072 * cj;
+                        used += 1;
+                    }
+                }
+                let mut t0v = vec![refmodel::POLY0; p.k];
+                t0v[0] = t0p;
+                let skb2 = refmodel::sk_encode(p, &base.rho, &base.key, &base.tr, &base.s1, &base.s2, &t0v);
+                let skc2 = SkCtx::new(p, &skb2);
+                let (want, info) = refmodel::sign_internal_ctx(&skc2, &mp, &[0u8; 32], &refmodel::SignOpts::default());
+                if !info.boundary_rejections.contains(&"ct0_norm==gamma2") {
+                    continue;
+                }
+                found = true;
+                let want = want.unwrap();
+                if let Ok(Ok(sk2)) = (api.sk_from_bytes)(&skb2) {
+                    let mut rng = ScriptRng::ok(&[0u8; 32]);
+                    rep.count("model_selected:rejected_exactly_at:ct0_norm==gamma2", 1);
+                    rep.nontrivial_case(fnv(&m));
+                    match sk2.sign(Mode::Pure, &mut rng, &m, b"") {
+                        Ok(Ok(s)) if s == want => {}
+                        other => rep.violate(Violation {
+                            key: "c03:boundary:ct0_norm==gamma2".into(),
+                            summary: format!("ML-DSA-44: signature differs from the reference for a key/message whose attempt with ||c t0|| = gamma2 exactly must be rejected: {:?}", other.map(|r| r.map(|_| "different bytes"))),
+                            replay: json!({"engine":"api","set":p.id,"ops":[{"op":"sk_from_bytes","sk":hex(&skb2)},{"op":"sign","probe":Probe{mode:Mode::Pure,msg:m.clone(),ctx:vec![],rnd:[0u8;32]}.json_full(),"expect":hex(&want)}]}),
+                        }),
+                    }
+                }
+                break;
+            }
+            if !found {
+                rep.caps_hit.push("ML-DSA-44: could not craft a key/message pair with an attempt rejected at ||c t0|| = gamma2 exactly".into());
+            }
+        }
         // the C01 hard cases (>= 10 iterations, late rejections, extremal norms) through the differential oracle
         let kg = refmodel::keygen_internal(p, &alpha::counter32(cx.seed, "seed", 0));
         let skc = SkCtx::new(p, &kg.sk);
@@ -391,7 +450,7 @@ fn find_rare_seeds(p: &'static Params, verif_seed: u64, cap: u64) -> RareSeeds {
 /// re-derived (and extended) whenever the file is missing or a larger cap is requested.
 pub fn rare_keygen_seeds(p: &'static Params, _verif_seed: u64, cap: u64) -> Vec<(String, [u8; 32])> {
     let path = format!("{}/witnesses/rarekg_mldsa{}.json", crate::report::verif_root(), p.id);
-    let names = ["t_wraps_past_q", "t_wraps_below_0", "t_wraps_past_q_in_last_row", "t_wraps_below_0_in_last_row", "t_coeff=0", "t_coeff=q-1", "t_coeff=0_without_wrap", "t_coeff=q-1_without_wrap"];
+    let names = ["t_wraps_past_q", "t_wraps_below_0", "t_wraps_past_q_in_last_row", "t_wraps_below_0_in_last_row", "t_coeff=0", "t_coeff=q-1", "t_coeff=0_without_wrap", "t_coeff=q-1_without_wrap", "As1+s2==q_exactly", "As1+s2==-1_exactly"];
     let mut known: Vec<(String, String)> = Vec::new();
     let mut searched: u64 = 0;
     if let Ok(text) = std::fs::read_to_string(&path) {
@@ -408,11 +467,11 @@ pub fn rare_keygen_seeds(p: &'static Params, _verif_seed: u64, cap: u64) -> Vec<
         let chunk = 4096u64;
         let mut base = 0;
         while base < cap && found.iter().any(|f| f.is_none()) {
-            let hits: Vec<(u64, [bool; 8])> = (base..base + chunk)
+            let hits: Vec<(u64, [bool; 10])> = (base..base + chunk)
                 .into_par_iter()
                 .map(|i| {
                     let kg = refmodel::keygen_internal(p, &alpha::counter32(0, "rarekg", i));
-                    let mut h = [false; 8];
+                    let mut h = [false; 10];
                     for k in 0..p.k {
                         for n in 0..256 {
                             let t = i64::from(kg.t[k][n]);
@@ -431,13 +490,15 @@ pub fn rare_keygen_seeds(p: &'static Params, _verif_seed: u64, cap: u64) -> Vec<
                             let nowrap = as1 + s2 >= 0 && as1 + s2 < refmodel::Q;
                             h[6] |= t == 0 && nowrap;
                             h[7] |= t == refmodel::Q - 1 && nowrap;
+                            h[8] |= as1 + s2 == refmodel::Q;
+                            h[9] |= as1 + s2 == -1;
                         }
                     }
                     (i, h)
                 })
                 .collect();
             for (i, h) in hits {
-                for e in 0..8 {
+                for e in 0..10 {
                     if h[e] && found[e].is_none() {
                         found[e] = Some(i);
                     }
